@@ -6,6 +6,7 @@ CONSTANTS
   PVals = {0, 1, 2, 3, 4, 5, 6, 7, 8, 9}
   LVals = {0, 1, 2, 3, 4, 5, 6, 7, 8}
   ForbSets = {{}}
+  HookExcs = {"badvalue", "hardware", "other"}
   Inits = {8}
 CONSTRAINT Track
 POSTCONDITION Verdicts
